@@ -20,6 +20,8 @@ CONSTANTS Ctx <- McCtx
  BGL = {}
  BoxFrom = {"a1"}
  BoxTo = {"a1", "a2"}
+ BoxSeqs = {}
+ SpendFrom = {}
  RewFrom = {}
  RewTerms = {}
  RewAmt = {}
